@@ -163,6 +163,7 @@ type ivAnalyzer struct {
 	failed string
 	nsym   int
 	curFn  *ssa.Function
+	cells  map[string]ssa.Value
 }
 
 // sliceLen evaluates the length interval of a slice-typed value.
@@ -279,7 +280,15 @@ func (a *ivAnalyzer) eval(v ssa.Value, e env) (ival, bool) {
 		return tr, true
 	case *ssa.ChangeType:
 		return a.eval(x.X, e)
+	case *ssa.Field, *ssa.Index:
+		if isIntLike(v.Type()) {
+			return a.loadValue(v, e)
+		}
+		return ival{}, false
 	case *ssa.UnOp:
+		if x.Op == token.MUL && isIntLike(x.Type()) {
+			return a.loadAddr(x.X, e)
+		}
 		if x.Op == token.SUB {
 			in, ok := a.eval(x.X, e)
 			if !ok {
@@ -350,10 +359,7 @@ func (a *ivAnalyzer) eval(v ssa.Value, e env) (ival, bool) {
 				return iv(int64(len(s)), int64(len(s))), true
 			}
 			if bt, ok := arg.Type().Underlying().(*types.Basic); ok && bt.Info()&types.IsString != 0 {
-				if l, ok := e[arg]; ok {
-					return l, true // a string parameter is abstracted by its length
-				}
-				return ival{}, false
+				return a.strLen(arg, e) // strings are abstracted by their length
 			}
 			if pt, ok := arg.Type().Underlying().(*types.Pointer); ok {
 				if arr, ok := pt.Elem().Underlying().(*types.Array); ok {
@@ -454,15 +460,54 @@ func (a *ivAnalyzer) oblige(fn *ssa.Function, pos token.Pos, kind string, ok boo
 }
 
 // analyze runs fn with the given parameter intervals and returns the joined result intervals.
+//
+// Loops are executed by bounded unrolling: a node is a (block, iteration) pair of the loop the block belongs to;
+// a back edge leads to the header's next iteration, infeasible edges (the refined interval of the compared value
+// is empty) are not followed, so a loop with a constant trip count unrolls exactly and precisely. If the back
+// edge is still feasible after ivMaxIter iterations the function is not analysable (never "ok" by default).
+// Local arrays and structs (a table of units built in the function, a scratch array of parts) are tracked cell by
+// cell; strings are abstracted by their length.
+const ivMaxIter = 40
+
 func (a *ivAnalyzer) analyze(fn *ssa.Function, params []ival) ([]ival, bool) {
 	if a.depth > 6 || len(fn.Blocks) == 0 {
 		a.failed = "call depth or missing body at " + nm(fn)
 		return nil, false
 	}
+	// natural loops (no nesting)
+	loopHead := map[int]int{}
 	for _, b := range fn.Blocks {
-		if inLoop(b) {
-			a.failed = "loop in " + nm(fn)
-			return nil, false
+		loopHead[b.Index] = -1
+	}
+	for _, b := range fn.Blocks {
+		for _, h := range b.Succs {
+			if !h.Dominates(b) {
+				continue
+			}
+			// back edge b -> h: the loop is h plus everything that reaches b without passing h
+			members := map[*ssa.BasicBlock]bool{h: true}
+			var stack []*ssa.BasicBlock
+			if !members[b] {
+				members[b] = true
+				stack = append(stack, b)
+			}
+			for len(stack) > 0 {
+				x := stack[len(stack)-1]
+				stack = stack[:len(stack)-1]
+				for _, pr := range x.Preds {
+					if !members[pr] {
+						members[pr] = true
+						stack = append(stack, pr)
+					}
+				}
+			}
+			for m := range members {
+				if cur := loopHead[m.Index]; cur >= 0 && cur != h.Index {
+					a.failed = "nested loops in " + nm(fn)
+					return nil, false
+				}
+				loopHead[m.Index] = h.Index
+			}
 		}
 	}
 	a.depth++
@@ -477,286 +522,389 @@ func (a *ivAnalyzer) analyze(fn *ssa.Function, params []ival) ([]ival, bool) {
 			base[q] = typeRange(q.Type())
 		}
 	}
-	start := len(a.obls) // obligations of earlier call contexts stay; those of this invocation are rebuilt per round
-	type edge struct{ from, to int }
-	edgeEnv := map[edge]env{}
-	inEnv := map[int]env{0: base}
+	start := len(a.obls) // obligations of earlier call contexts stay; those of this invocation are rebuilt per sweep
+	type nodeKey struct{ b, k int }
+	type edgeKey struct{ fb, fk, tb, tk int }
+	edgeEnv := map[edgeKey]env{}
+	target := func(b *ssa.BasicBlock, k int, s *ssa.BasicBlock) nodeKey {
+		hb, hs := loopHead[b.Index], loopHead[s.Index]
+		switch {
+		case hs >= 0 && hs == hb && s.Index == hs:
+			return nodeKey{s.Index, k + 1} // back edge
+		case hs >= 0 && hs == hb:
+			return nodeKey{s.Index, k}
+		}
+		return nodeKey{s.Index, 0}
+	}
 	var results []ival
-	// iterate to a fixpoint (the CFG is acyclic: few rounds)
-	for round := 0; round < len(fn.Blocks)+2; round++ {
+	for sweep := 0; sweep < 3; sweep++ {
 		results = nil
 		a.obls = a.obls[:start]
-		for _, b := range fn.Blocks {
-			var e env
-			if b.Index == 0 {
-				e = base.clone()
-			} else {
-				// join the incoming edge environments
-				first := true
-				for _, pr := range b.Preds {
-					pe, ok := edgeEnv[edge{pr.Index, b.Index}]
-					if !ok {
-						continue
-					}
-					if first {
-						e = pe.clone()
-						first = false
-						continue
-					}
-					for k, v := range e {
-						if w, ok := pe[k]; ok {
-							e[k] = v.join(w)
-						} else {
-							delete(e, k)
-						}
-					}
+		for k := 0; k <= ivMaxIter; k++ {
+			any := false
+			for _, b := range fn.Blocks {
+				if k > 0 && loopHead[b.Index] < 0 {
+					continue
 				}
-				if first {
-					continue // unreachable so far
-				}
-				// phis
-				for _, in := range b.Instrs {
-					ph, ok := in.(*ssa.Phi)
-					if !ok {
-						break
+				var e env
+				if b.Index == 0 && k == 0 {
+					e = base.clone()
+				} else {
+					first := true
+					type inc struct {
+						pred *ssa.BasicBlock
+						pe   env
 					}
-					var acc *ival
-					for i, pr := range b.Preds {
-						pe, ok := edgeEnv[edge{pr.Index, b.Index}]
-						if !ok {
-							continue
-						}
-						v, ok := a.eval(ph.Edges[i], pe)
-						if !ok {
-							if _, isBasic := ph.Type().Underlying().(*types.Basic); isBasic {
-								v = typeRange(ph.Type())
-							} else {
+					var incs []inc
+					for _, pr := range b.Preds {
+						for pk := 0; pk <= ivMaxIter; pk++ {
+							if pk > 0 && loopHead[pr.Index] < 0 {
+								break
+							}
+							pe, ok := edgeEnv[edgeKey{pr.Index, pk, b.Index, k}]
+							if !ok {
 								continue
 							}
-						}
-						if acc == nil {
-							vv := v
-							acc = &vv
-						} else {
-							j := acc.join(v)
-							acc = &j
+							incs = append(incs, inc{pr, pe})
+							if first {
+								e = pe.clone()
+								first = false
+								continue
+							}
+							for kk, v := range e {
+								if w, ok := pe[kk]; ok {
+									e[kk] = v.join(w)
+								} else {
+									delete(e, kk)
+								}
+							}
 						}
 					}
-					if acc != nil {
-						e[ph] = *acc
+					if first {
+						continue // not reached (yet)
+					}
+					// a new iteration: what the body computed last time is stale (phis are recomputed below)
+					if k > 0 && loopHead[b.Index] == b.Index {
+						for kk := range e {
+							if in, ok := kk.(ssa.Instruction); ok && in.Block() != nil && loopHead[in.Block().Index] == b.Index {
+								if _, isPhi := kk.(*ssa.Phi); !isPhi {
+									delete(e, kk)
+								}
+							}
+						}
+					}
+					// phis
+					for _, in := range b.Instrs {
+						ph, ok := in.(*ssa.Phi)
+						if !ok {
+							break
+						}
+						var acc *ival
+						for _, ic := range incs {
+							for i, pr := range b.Preds {
+								if pr != ic.pred {
+									continue
+								}
+								v, ok := a.eval(ph.Edges[i], ic.pe)
+								if !ok {
+									if _, isBasic := ph.Type().Underlying().(*types.Basic); isBasic {
+										v = typeRange(ph.Type())
+									} else {
+										continue
+									}
+								}
+								if acc == nil {
+									vv := v
+									acc = &vv
+								} else {
+									j := acc.join(v)
+									acc = &j
+								}
+							}
+						}
+						if acc != nil {
+							e[ph] = *acc
+						} else {
+							delete(e, ph)
+						}
 					}
 				}
-			}
-			inEnv[b.Index] = e
-			dead := false
-			for _, in := range b.Instrs {
-				switch x := in.(type) {
-				case *ssa.Store:
-					if ia, ok := x.Addr.(*ssa.IndexAddr); ok {
-						idx, ok1 := a.eval(ia.Index, e)
+				any = true
+				dead := false
+				for _, in := range b.Instrs {
+					a.aggTransfer(in, e)
+					switch x := in.(type) {
+					case *ssa.Store:
+						if ia, ok := x.Addr.(*ssa.IndexAddr); ok {
+							idx, ok1 := a.eval(ia.Index, e)
+							var ln ival
+							ok2 := false
+							if pt, ok := ia.X.Type().Underlying().(*types.Pointer); ok {
+								if arr, ok := pt.Elem().Underlying().(*types.Array); ok {
+									ln, ok2 = iv(arr.Len(), arr.Len()), true
+								}
+							} else {
+								ln, ok2 = a.sliceLen(ia.X, e)
+							}
+							if !ok1 || !ok2 {
+								a.oblige(fn, instrPos(x), "index", false, "index or length not evaluable")
+							} else {
+								good := nonNeg(idx) && ltIv(idx, ln)
+								a.oblige(fn, instrPos(x), "index", good, "byte stored at index %s of a buffer of length %s", idx, ln)
+							}
+						}
+					case *ssa.Slice:
+						// bounds of a reslice
 						var ln ival
 						ok2 := false
-						if pt, ok := ia.X.Type().Underlying().(*types.Pointer); ok {
+						if pt, ok := x.X.Type().Underlying().(*types.Pointer); ok {
 							if arr, ok := pt.Elem().Underlying().(*types.Array); ok {
 								ln, ok2 = iv(arr.Len(), arr.Len()), true
 							}
 						} else {
-							ln, ok2 = a.sliceLen(ia.X, e)
+							ln, ok2 = a.sliceLen(x.X, e)
 						}
-						if !ok1 || !ok2 {
-							a.oblige(fn, instrPos(x), "index", false, "index or length not evaluable")
-						} else {
-							good := nonNeg(idx) && ltIv(idx, ln)
-							a.oblige(fn, instrPos(x), "index", good, "byte stored at index %s of a buffer of length %s", idx, ln)
-						}
-					}
-				case *ssa.Slice:
-					// bounds of a reslice
-					var ln ival
-					ok2 := false
-					if pt, ok := x.X.Type().Underlying().(*types.Pointer); ok {
-						if arr, ok := pt.Elem().Underlying().(*types.Array); ok {
-							ln, ok2 = iv(arr.Len(), arr.Len()), true
-						}
-					} else {
-						ln, ok2 = a.sliceLen(x.X, e)
-					}
-					for _, bnd := range []ssa.Value{x.Low, x.High} {
-						if bnd == nil {
-							continue
-						}
-						bv, ok1 := a.eval(bnd, e)
-						if !ok1 || !ok2 {
-							a.oblige(fn, instrPos(x), "slice", false, "slice bound not evaluable")
-							continue
-						}
-						good := nonNeg(bv) && leIv(bv, ln)
-						a.oblige(fn, instrPos(x), "slice", good, "slice bound %s on a buffer of length %s", bv, ln)
-					}
-				case *ssa.Call:
-					cc := x.Common()
-					if isBuiltinCall(x, "copy") {
-						dl, ok1 := a.sliceLen(cc.Args[0], e)
-						ok2 := false
-						var srcLen int64
-						if s, ok := constString(cc.Args[1]); ok {
-							srcLen, ok2 = int64(len(s)), true
-						} else if l, ok := e[cc.Args[1]]; ok && l.lo.Cmp(l.hi) == 0 && l.lo.IsInt64() {
-							srcLen, ok2 = l.lo.Int64(), true // a string parameter of known length in this call context
-						}
-						if ok1 && ok2 {
-							a.oblige(fn, instrPos(x), "copy", dl.conc().lo.Cmp(big.NewInt(srcLen)) >= 0, "%d bytes copied into room for %s", srcLen, dl)
-						} else {
-							a.oblige(fn, instrPos(x), "copy", false, "copy not evaluable")
-						}
-						continue
-					}
-					cal := calleeOf(x)
-					if cal == nil {
-						continue
-					}
-					switch {
-					case a.summar[nm(cal)] && nm(cal) == "fmtInt":
-						ln, ok1 := a.sliceLen(cc.Args[0], e)
-						v, ok2 := a.eval(cc.Args[1], e)
-						if !ok1 || !ok2 {
-							a.oblige(fn, instrPos(x), "digits", false, "fmtInt operands not evaluable")
-							continue
-						}
-						v = v.conc()
-						d := digits(v.hi)
-						res := subIv(ln, iv(1, d)) // at least one digit, at most d
-						a.oblige(fn, instrPos(x), "digits", nonNeg(res), "fmtInt writes up to %d digit(s) (value <= %s) into room for %s", d, v.hi, ln)
-						e[x] = res
-					case a.summar[nm(cal)] && nm(cal) == "fmtFrac":
-						ln, ok1 := a.sliceLen(cc.Args[0], e)
-						v, ok2 := a.eval(cc.Args[1], e)
-						pr, ok3 := a.eval(cc.Args[2], e)
-						if !ok1 || !ok2 || !ok3 {
-							a.oblige(fn, instrPos(x), "digits", false, "fmtFrac operands not evaluable")
-							continue
-						}
-						v, pr = v.conc(), pr.conc()
-						need := new(big.Int).Add(pr.hi, big.NewInt(1))
-						lower := subIv(ln, ivb(need, need))
-						nl := lower.lo
-						a.oblige(fn, instrPos(x), "digits", nonNeg(lower), "fmtFrac writes up to %s byte(s) into room for %s", need, ln)
-						// results: nw, nv = v / 10^prec
-						plo := new(big.Int).Exp(big.NewInt(10), pr.lo, nil)
-						phi := new(big.Int).Exp(big.NewInt(10), pr.hi, nil)
-						for _, ref := range *x.Referrers() {
-							if ex, ok := ref.(*ssa.Extract); ok {
-								if ex.Index == 0 {
-									w0 := ivb(nl, ln.hi)
-									w0.sym = ln.sym
-									e[ex] = w0
-								} else {
-									e[ex] = ivb(new(big.Int).Quo(v.lo, phi), new(big.Int).Quo(v.hi, plo))
-								}
-							}
-						}
-					case cal.Pkg == fn.Pkg && len(cal.Blocks) > 0:
-						var ps []ival
-						for i, arg := range cc.Args {
-							var pv ival
-							if _, isSlice := cal.Params[i].Type().Underlying().(*types.Slice); isSlice {
-								pv, _ = a.sliceLen(arg, e)
-							} else if bt, isB := cal.Params[i].Type().Underlying().(*types.Basic); isB && bt.Info()&types.IsString != 0 {
-								if s, isC := constString(arg); isC {
-									pv = iv(int64(len(s)), int64(len(s)))
-								} else if l, has := e[arg]; has {
-									pv = l
-								}
-							} else {
-								pv, _ = a.eval(arg, e)
-							}
-							ps = append(ps, pv)
-						}
-						// a slice argument whose length is not a single value gets a symbolic length in the callee;
-						// an integer argument that IS that length (f(buf[:w], ..., w)) shares it
-						fresh := map[*symv]ival{}
-						for i, arg := range cc.Args {
-							if _, isSlice := cal.Params[i].Type().Underlying().(*types.Slice); !isSlice || ps[i].lo == nil || ps[i].sym != nil || ps[i].lo.Cmp(ps[i].hi) == 0 {
+						for _, bnd := range []ssa.Value{x.Low, x.High} {
+							if bnd == nil {
 								continue
 							}
-							a.nsym++
-							sv := &symv{rng: ps[i], id: a.nsym}
-							fresh[sv] = ps[i]
-							ps[i] = ival{big.NewInt(0), big.NewInt(0), sv}
-							if sl, isSl := arg.(*ssa.Slice); isSl && sl.High != nil && (sl.Low == nil || func() bool { z, c := constInt(sl.Low); return c && z == 0 }()) {
-								for j, other := range cc.Args {
-									if j != i && other == sl.High {
-										ps[j] = ival{big.NewInt(0), big.NewInt(0), sv}
+							bv, ok1 := a.eval(bnd, e)
+							if !ok1 || !ok2 {
+								a.oblige(fn, instrPos(x), "slice", false, "slice bound not evaluable")
+								continue
+							}
+							good := nonNeg(bv) && leIv(bv, ln)
+							a.oblige(fn, instrPos(x), "slice", good, "slice bound %s on a buffer of length %s", bv, ln)
+						}
+					case *ssa.Call:
+						cc := x.Common()
+						if isBuiltinCall(x, "copy") {
+							dl, ok1 := a.sliceLen(cc.Args[0], e)
+							ok2 := false
+							var srcLen int64
+							if s, ok := constString(cc.Args[1]); ok {
+								srcLen, ok2 = int64(len(s)), true
+							} else if l, ok := a.strLen(cc.Args[1], e); ok && l.sym == nil && l.lo.Cmp(l.hi) == 0 && l.lo.IsInt64() {
+								srcLen, ok2 = l.lo.Int64(), true // a string parameter of known length in this call context
+							}
+							if ok1 && ok2 {
+								a.oblige(fn, instrPos(x), "copy", dl.conc().lo.Cmp(big.NewInt(srcLen)) >= 0, "%d bytes copied into room for %s", srcLen, dl)
+							} else {
+								a.oblige(fn, instrPos(x), "copy", false, "copy not evaluable")
+							}
+							continue
+						}
+						cal := calleeOf(x)
+						if cal == nil {
+							continue
+						}
+						switch {
+						case a.summar[nm(cal)] && nm(cal) == "fmtInt":
+							ln, ok1 := a.sliceLen(cc.Args[0], e)
+							v, ok2 := a.eval(cc.Args[1], e)
+							if !ok1 || !ok2 {
+								a.oblige(fn, instrPos(x), "digits", false, "fmtInt operands not evaluable")
+								continue
+							}
+							v = v.conc()
+							d := digits(v.hi)
+							res := subIv(ln, iv(1, d)) // at least one digit, at most d
+							a.oblige(fn, instrPos(x), "digits", nonNeg(res), "fmtInt writes up to %d digit(s) (value <= %s) into room for %s", d, v.hi, ln)
+							e[x] = res
+						case a.summar[nm(cal)] && nm(cal) == "fmtFrac":
+							ln, ok1 := a.sliceLen(cc.Args[0], e)
+							v, ok2 := a.eval(cc.Args[1], e)
+							pr, ok3 := a.eval(cc.Args[2], e)
+							if !ok1 || !ok2 || !ok3 {
+								a.oblige(fn, instrPos(x), "digits", false, "fmtFrac operands not evaluable")
+								continue
+							}
+							v, pr = v.conc(), pr.conc()
+							need := new(big.Int).Add(pr.hi, big.NewInt(1))
+							lower := subIv(ln, ivb(need, need))
+							nl := lower.lo
+							a.oblige(fn, instrPos(x), "digits", nonNeg(lower), "fmtFrac writes up to %s byte(s) into room for %s", need, ln)
+							// results: nw, nv = v / 10^prec
+							plo := new(big.Int).Exp(big.NewInt(10), pr.lo, nil)
+							phi := new(big.Int).Exp(big.NewInt(10), pr.hi, nil)
+							for _, ref := range *x.Referrers() {
+								if ex, ok := ref.(*ssa.Extract); ok {
+									if ex.Index == 0 {
+										w0 := ivb(nl, ln.hi)
+										w0.sym = ln.sym
+										e[ex] = w0
+									} else {
+										e[ex] = ivb(new(big.Int).Quo(v.lo, phi), new(big.Int).Quo(v.hi, plo))
 									}
 								}
 							}
-						}
-						res, ok := a.analyze(cal, ps)
-						if !ok {
-							a.oblige(fn, instrPos(x), "call", false, "helper %s could not be analysed (%s)", nm(cal), a.failed)
-							continue
-						}
-						for i := range res {
-							if base, mine := fresh[res[i].sym]; mine {
-								off := res[i]
-								off.sym = nil
-								res[i] = addIv(base, off)
+						case cal.Pkg == fn.Pkg && len(cal.Blocks) > 0:
+							var ps []ival
+							for i, arg := range cc.Args {
+								var pv ival
+								if _, isSlice := cal.Params[i].Type().Underlying().(*types.Slice); isSlice {
+									pv, _ = a.sliceLen(arg, e)
+								} else if bt, isB := cal.Params[i].Type().Underlying().(*types.Basic); isB && bt.Info()&types.IsString != 0 {
+									if l, has := a.strLen(arg, e); has {
+										pv = l
+									}
+								} else {
+									pv, _ = a.eval(arg, e)
+								}
+								ps = append(ps, pv)
+							}
+							// a slice argument whose length is not a single value gets a symbolic length in the callee;
+							// an integer argument that IS that length (f(buf[:w], ..., w)) shares it
+							fresh := map[*symv]ival{}
+							for i, arg := range cc.Args {
+								if _, isSlice := cal.Params[i].Type().Underlying().(*types.Slice); !isSlice || ps[i].lo == nil || ps[i].sym != nil || ps[i].lo.Cmp(ps[i].hi) == 0 {
+									continue
+								}
+								a.nsym++
+								sv := &symv{rng: ps[i], id: a.nsym}
+								fresh[sv] = ps[i]
+								ps[i] = ival{big.NewInt(0), big.NewInt(0), sv}
+								if sl, isSl := arg.(*ssa.Slice); isSl && sl.High != nil && (sl.Low == nil || func() bool { z, c := constInt(sl.Low); return c && z == 0 }()) {
+									for j, other := range cc.Args {
+										if j != i && other == sl.High {
+											ps[j] = ival{big.NewInt(0), big.NewInt(0), sv}
+										}
+									}
+								}
+							}
+							res, ok := a.analyze(cal, ps)
+							if !ok {
+								a.oblige(fn, instrPos(x), "call", false, "helper %s could not be analysed (%s)", nm(cal), a.failed)
+								continue
+							}
+							for i := range res {
+								if base, mine := fresh[res[i].sym]; mine {
+									off := res[i]
+									off.sym = nil
+									res[i] = addIv(base, off)
+								}
+							}
+							if len(res) == 1 {
+								e[x] = res[0]
 							}
 						}
-						if len(res) == 1 {
-							e[x] = res[0]
+					case *ssa.Return:
+						for i, rv := range x.Results {
+							v, ok := a.eval(rv, e)
+							if !ok {
+								v = typeRange(rv.Type())
+							}
+							if i >= len(results) {
+								results = append(results, v)
+							} else {
+								results[i] = results[i].join(v)
+							}
 						}
+					case *ssa.Panic:
+						dead = true
 					}
-				case *ssa.Return:
-					for i, rv := range x.Results {
-						v, ok := a.eval(rv, e)
-						if !ok {
-							v = typeRange(rv.Type())
+				}
+
+				if dead {
+					continue
+				}
+				// out edges
+				if iff := ifOf(b); iff != nil {
+					for ki, s := range b.Succs {
+						ne := e.clone()
+						feasible := true
+						if cb, isC := a.condConst(iff.Cond, e); isC {
+							feasible = cb == (ki == 0)
+						} else if _, ok := iff.Cond.(*ssa.Parameter); !ok {
+							a.refine(iff.Cond, ki == 0, ne)
+							c, _ := normCond(iff.Cond)
+							if bo, ok := c.(*ssa.BinOp); ok {
+								if v, ok := ne[bo.X]; ok && v.empty() {
+									feasible = false
+								}
+							}
 						}
-						if i >= len(results) {
-							results = append(results, v)
+						t := target(b, k, s)
+						ek := edgeKey{b.Index, k, t.b, t.k}
+						if feasible {
+							if t.k > ivMaxIter {
+								a.failed = "loop bound not established in " + nm(fn)
+								return nil, false
+							}
+							edgeEnv[ek] = ne
 						} else {
-							results[i] = results[i].join(v)
+							delete(edgeEnv, ek)
 						}
 					}
-				case *ssa.Panic:
-					dead = true
-				}
-			}
-			if dead {
-				continue
-			}
-			// out edges
-			if iff := ifOf(b); iff != nil {
-				for k, s := range b.Succs {
-					ne := e.clone()
-					if prm, ok := iff.Cond.(*ssa.Parameter); ok {
-						_ = prm
-					} else {
-						a.refine(iff.Cond, k == 0, ne)
-					}
-					// infeasible edge?
-					feasible := true
-					c, _ := normCond(iff.Cond)
-					if bo, ok := c.(*ssa.BinOp); ok {
-						if v, ok := ne[bo.X]; ok && v.empty() {
-							feasible = false
+				} else {
+					for _, s := range b.Succs {
+						t := target(b, k, s)
+						if t.k > ivMaxIter {
+							a.failed = "loop bound not established in " + nm(fn)
+							return nil, false
 						}
-					}
-					if feasible {
-						edgeEnv[edge{b.Index, s.Index}] = ne
-					} else {
-						delete(edgeEnv, edge{b.Index, s.Index})
+						edgeEnv[edgeKey{b.Index, k, t.b, t.k}] = e.clone()
 					}
 				}
-			} else {
-				for _, s := range b.Succs {
-					edgeEnv[edge{b.Index, s.Index}] = e.clone()
-				}
+			}
+			if !any && k > 0 {
+				break
 			}
 		}
 	}
 	return results, true
+}
+
+// condConst decides a comparison whose operands are single values (the unrolled loop test i < 7 with i concrete).
+func (a *ivAnalyzer) condConst(cond ssa.Value, e env) (bool, bool) {
+	c, neg := normCond(cond)
+	bo, ok := c.(*ssa.BinOp)
+	if !ok {
+		return false, false
+	}
+	l, ok1 := a.eval(bo.X, e)
+	r, ok2 := a.eval(bo.Y, e)
+	if !ok1 || !ok2 || l.sym != nil || r.sym != nil {
+		return false, false
+	}
+	var res bool
+	switch bo.Op {
+	case token.LSS:
+		if l.hi.Cmp(r.lo) < 0 {
+			res = true
+		} else if l.lo.Cmp(r.hi) >= 0 {
+			res = false
+		} else {
+			return false, false
+		}
+	case token.GEQ:
+		if l.lo.Cmp(r.hi) >= 0 {
+			res = true
+		} else if l.hi.Cmp(r.lo) < 0 {
+			res = false
+		} else {
+			return false, false
+		}
+	case token.GTR:
+		if l.lo.Cmp(r.hi) > 0 {
+			res = true
+		} else if l.hi.Cmp(r.lo) <= 0 {
+			res = false
+		} else {
+			return false, false
+		}
+	case token.LEQ:
+		if l.hi.Cmp(r.lo) <= 0 {
+			res = true
+		} else if l.lo.Cmp(r.hi) > 0 {
+			res = false
+		} else {
+			return false, false
+		}
+	default:
+		return false, false
+	}
+	return res != neg, true
 }
 
 func filterObls(in []ivObligation, fn *ssa.Function) []ivObligation {
@@ -784,4 +932,357 @@ func intBits(t types.Type) int {
 		return 32
 	}
 	return 64
+}
+
+// ---- local aggregates (arrays / structs built inside the function) -------------------------------------------------------
+
+func isIntLike(t types.Type) bool {
+	b, ok := t.Underlying().(*types.Basic)
+	return ok && b.Info()&(types.IsInteger|types.IsBoolean) != 0
+}
+
+func isStringT(t types.Type) bool {
+	b, ok := t.Underlying().(*types.Basic)
+	return ok && b.Info()&types.IsString != 0
+}
+
+// cell interns the abstract memory cell (root, path) as a map key of env.
+func (a *ivAnalyzer) cell(root ssa.Value, path string) ssa.Value {
+	if a.cells == nil {
+		a.cells = map[string]ssa.Value{}
+	}
+	k := fmt.Sprintf("%p|%s", root, path)
+	if c, ok := a.cells[k]; ok {
+		return c
+	}
+	c := new(ssa.Alloc) // a unique key; never used as an instruction
+	a.cells[k] = c
+	return c
+}
+
+// leafPaths lists the scalar leaves of an aggregate type as relative paths ("" for a scalar).
+func leafPaths(t types.Type, limit int) ([]string, bool) {
+	switch u := t.Underlying().(type) {
+	case *types.Array:
+		sub, ok := leafPaths(u.Elem(), limit)
+		if !ok || int(u.Len())*len(sub) > limit {
+			return nil, false
+		}
+		var out []string
+		for i := int64(0); i < u.Len(); i++ {
+			for _, s := range sub {
+				out = append(out, fmt.Sprintf("%d.", i)+s)
+			}
+		}
+		return out, true
+	case *types.Struct:
+		var out []string
+		for i := 0; i < u.NumFields(); i++ {
+			sub, ok := leafPaths(u.Field(i).Type(), limit)
+			if !ok {
+				return nil, false
+			}
+			for _, s := range sub {
+				out = append(out, fmt.Sprintf("f%d.", i)+s)
+			}
+		}
+		return out, len(out) <= limit
+	case *types.Basic:
+		return []string{""}, true
+	}
+	return nil, false
+}
+
+func isAggT(t types.Type) bool {
+	switch t.Underlying().(type) {
+	case *types.Array, *types.Struct:
+		return true
+	}
+	return false
+}
+
+func idxRange(idx ival, n int64) (int64, int64, bool) {
+	idx = idx.conc()
+	lo, hi := int64(0), n-1
+	if idx.lo.IsInt64() && idx.lo.Int64() > lo {
+		lo = idx.lo.Int64()
+	}
+	if idx.hi.IsInt64() && idx.hi.Int64() < hi {
+		hi = idx.hi.Int64()
+	}
+	if hi-lo > 64 || hi < lo {
+		return 0, 0, false
+	}
+	return lo, hi, true
+}
+
+// resolveAddr: addr points into a tracked local aggregate; the result is the root and the concrete cell prefixes it can
+// denote (several when an index is not a single value).
+func (a *ivAnalyzer) resolveAddr(addr ssa.Value, e env) (ssa.Value, []string, bool) {
+	switch x := addr.(type) {
+	case *ssa.Alloc:
+		if _, tracked := e[a.cell(x, "#")]; !tracked {
+			return nil, nil, false
+		}
+		return x, []string{""}, true
+	case *ssa.FieldAddr:
+		root, ps, ok := a.resolveAddr(x.X, e)
+		if !ok {
+			return nil, nil, false
+		}
+		out := make([]string, len(ps))
+		for i, p := range ps {
+			out[i] = p + fmt.Sprintf("f%d.", x.Field)
+		}
+		return root, out, true
+	case *ssa.IndexAddr:
+		root, ps, ok := a.resolveAddr(x.X, e)
+		if !ok {
+			return nil, nil, false
+		}
+		idx, ok := a.eval(x.Index, e)
+		if !ok {
+			return nil, nil, false
+		}
+		n := int64(-1)
+		if pt, ok := x.X.Type().Underlying().(*types.Pointer); ok {
+			if arr, ok := pt.Elem().Underlying().(*types.Array); ok {
+				n = arr.Len()
+			}
+		}
+		if n < 0 {
+			return nil, nil, false
+		}
+		lo, hi, ok := idxRange(idx, n)
+		if !ok {
+			return nil, nil, false
+		}
+		var out []string
+		for _, p := range ps {
+			for i := lo; i <= hi; i++ {
+				out = append(out, p+fmt.Sprintf("%d.", i))
+			}
+		}
+		return root, out, true
+	}
+	return nil, nil, false
+}
+
+// aggOf: v is an aggregate VALUE (the copy of an array, an element struct) whose cells are tracked under (v, path).
+func (a *ivAnalyzer) aggOf(v ssa.Value, e env) (ssa.Value, []string, bool) {
+	switch x := v.(type) {
+	case *ssa.Index:
+		root, ps, ok := a.aggOf(x.X, e)
+		if !ok {
+			return nil, nil, false
+		}
+		idx, ok := a.eval(x.Index, e)
+		arr, isArr := x.X.Type().Underlying().(*types.Array)
+		if !ok || !isArr {
+			return nil, nil, false
+		}
+		lo, hi, ok := idxRange(idx, arr.Len())
+		if !ok {
+			return nil, nil, false
+		}
+		var out []string
+		for _, p := range ps {
+			for i := lo; i <= hi; i++ {
+				out = append(out, p+fmt.Sprintf("%d.", i))
+			}
+		}
+		return root, out, true
+	case *ssa.Field:
+		root, ps, ok := a.aggOf(x.X, e)
+		if !ok {
+			return nil, nil, false
+		}
+		out := make([]string, len(ps))
+		for i, p := range ps {
+			out[i] = p + fmt.Sprintf("f%d.", x.Field)
+		}
+		return root, out, true
+	}
+	if _, tracked := e[a.cell(v, "#")]; tracked {
+		return v, []string{""}, true
+	}
+	return nil, nil, false
+}
+
+func (a *ivAnalyzer) readCells(root ssa.Value, ps []string, e env) (ival, bool) {
+	var acc *ival
+	for _, p := range ps {
+		v, ok := e[a.cell(root, p)]
+		if !ok {
+			return ival{}, false
+		}
+		if acc == nil {
+			vv := v
+			acc = &vv
+		} else {
+			j := acc.join(v)
+			acc = &j
+		}
+	}
+	if acc == nil {
+		return ival{}, false
+	}
+	return *acc, true
+}
+
+func (a *ivAnalyzer) loadAddr(addr ssa.Value, e env) (ival, bool) {
+	root, ps, ok := a.resolveAddr(addr, e)
+	if !ok {
+		return ival{}, false
+	}
+	return a.readCells(root, ps, e)
+}
+
+func (a *ivAnalyzer) loadValue(v ssa.Value, e env) (ival, bool) {
+	root, ps, ok := a.aggOf(v, e)
+	if !ok {
+		return ival{}, false
+	}
+	return a.readCells(root, ps, e)
+}
+
+// strLen: the length of a string value (constant, parameter abstracted by its length, or a tracked cell).
+func (a *ivAnalyzer) strLen(v ssa.Value, e env) (ival, bool) {
+	if s, ok := constString(v); ok {
+		return iv(int64(len(s)), int64(len(s))), true
+	}
+	if l, ok := e[v]; ok {
+		return l, true
+	}
+	switch x := v.(type) {
+	case *ssa.UnOp:
+		if x.Op == token.MUL {
+			return a.loadAddr(x.X, e)
+		}
+	case *ssa.Field, *ssa.Index:
+		return a.loadValue(v, e)
+	case *ssa.Phi:
+		var acc *ival
+		for _, ed := range x.Edges {
+			l, ok := a.strLen(ed, e)
+			if !ok {
+				return ival{}, false
+			}
+			if acc == nil {
+				ll := l
+				acc = &ll
+			} else {
+				j := acc.join(l)
+				acc = &j
+			}
+		}
+		if acc != nil {
+			return *acc, true
+		}
+	}
+	return ival{}, false
+}
+
+// aggTransfer keeps the cells of local aggregates up to date: allocation (zero value), stores, whole-value loads.
+func (a *ivAnalyzer) aggTransfer(in ssa.Instruction, e env) {
+	scalarOf := func(v ssa.Value) (ival, bool) {
+		if isStringT(v.Type()) {
+			return a.strLen(v, e)
+		}
+		if isIntLike(v.Type()) {
+			return a.eval(v, e)
+		}
+		return ival{}, false
+	}
+	copyAgg := func(dst ssa.Value, dp string, src ssa.Value, sps []string, t types.Type) {
+		leaves, ok := leafPaths(t, 256)
+		if !ok {
+			return
+		}
+		for _, lf := range leaves {
+			var acc *ival
+			good := true
+			for _, sp := range sps {
+				v, ok := e[a.cell(src, sp+lf)]
+				if !ok {
+					good = false
+					break
+				}
+				if acc == nil {
+					vv := v
+					acc = &vv
+				} else {
+					j := acc.join(v)
+					acc = &j
+				}
+			}
+			if good && acc != nil {
+				e[a.cell(dst, dp+lf)] = *acc
+			} else {
+				delete(e, a.cell(dst, dp+lf))
+			}
+		}
+		e[a.cell(dst, "#")] = iv(1, 1)
+	}
+	switch x := in.(type) {
+	case *ssa.Alloc:
+		pt, ok := x.Type().Underlying().(*types.Pointer)
+		if !ok || !isAggT(pt.Elem()) {
+			return
+		}
+		leaves, ok := leafPaths(pt.Elem(), 256)
+		if !ok {
+			return
+		}
+		e[a.cell(x, "#")] = iv(1, 1)
+		for _, lf := range leaves {
+			e[a.cell(x, lf)] = iv(0, 0) // zero value (integers 0, strings empty)
+		}
+	case *ssa.Store:
+		root, ps, ok := a.resolveAddr(x.Addr, e)
+		if !ok {
+			return
+		}
+		if isAggT(x.Val.Type()) {
+			sroot, sps, sok := a.aggOf(x.Val, e)
+			for _, p := range ps {
+				if sok && len(ps) == 1 {
+					copyAgg(root, p, sroot, sps, x.Val.Type())
+				} else if leaves, lok := leafPaths(x.Val.Type(), 256); lok {
+					for _, lf := range leaves {
+						delete(e, a.cell(root, p+lf))
+					}
+				}
+			}
+			return
+		}
+		v, vok := scalarOf(x.Val)
+		for _, p := range ps {
+			c := a.cell(root, p)
+			switch {
+			case !vok:
+				delete(e, c)
+			case len(ps) == 1:
+				e[c] = v
+			default:
+				if old, has := e[c]; has {
+					e[c] = old.join(v)
+				}
+			}
+		}
+	case *ssa.UnOp:
+		if x.Op != token.MUL || !isAggT(x.Type()) {
+			return
+		}
+		if root, ps, ok := a.resolveAddr(x.X, e); ok {
+			copyAgg(x, "", root, ps, x.Type())
+		}
+	case *ssa.Index:
+		if !isAggT(x.Type()) {
+			return
+		}
+		if root, ps, ok := a.aggOf(x, e); ok && root != ssa.Value(x) {
+			copyAgg(x, "", root, ps, x.Type())
+		}
+	}
 }
